@@ -392,6 +392,9 @@ func (ds *Dataset) StoreEntitiesWithTransaction(
 				if IsEntityEqual(prevLocalJSON, jsonData, prevLocalEntity, e) {
 					isDifferentLocally = false
 				}
+				// the version written earlier in this batch is the entity's current version,
+				// it supersedes the stored one for deciding whether this write changes anything
+				isDifferent = isDifferentLocally
 
 			} else {
 				isDifferentLocally = false
